@@ -81,3 +81,64 @@ pub fn connector_kind(dict: &Dictionary) -> u8 {
 pub fn connid_counts(worker: &Worker) -> Option<(Vec<usize>, Vec<usize>)> {
     worker.counter.as_ref().map(|c| c.verif_counts())
 }
+
+/// `Lexicon::parse_csv(bytes, "lex.csv")` with owned strings.
+pub fn parse_lex_csv(bytes: &[u8]) -> Result<Vec<(String, u16, u16, i16, String)>, ()> {
+    crate::dictionary::lexicon::Lexicon::parse_csv(bytes, "lex.csv")
+        .map(|v| {
+            v.into_iter()
+                .map(|e| {
+                    (
+                        e.surface,
+                        e.param.left_id,
+                        e.param.right_id,
+                        e.param.word_cost,
+                        e.feature.to_string(),
+                    )
+                })
+                .collect()
+        })
+        .map_err(|_| ())
+}
+
+/// `utils::parse_csv_row`.
+pub fn parse_csv_row(row: &str) -> Vec<String> {
+    crate::utils::parse_csv_row(row)
+}
+
+/// `utils::quote_csv_cell` into a fresh buffer.
+#[cfg(feature = "train")]
+pub fn quote_csv_cell(cell: &[u8]) -> Vec<u8> {
+    let mut out = vec![];
+    crate::utils::quote_csv_cell(&mut out, cell).unwrap();
+    out
+}
+
+/// Builds a `Scorer` from `(key1, key2, cost)` triples inserted in order; returns its arrays
+/// (`bases`, `checks`, `costs`), the answers to `queries` (portable build only) and the
+/// accumulated cost over the two key sequences given lane by lane.
+pub fn scorer_probe(
+    entries: &[(u32, u32, i32)],
+    queries: &[(u32, u32)],
+    lanes1: &[u32],
+    lanes2: &[u32],
+) -> (Vec<u32>, Vec<u32>, Vec<i32>, Vec<Option<i32>>, i32) {
+    use crate::dictionary::connector::verif_scorer::{ScorerBuilder, U31x8};
+    use crate::num::U31;
+    let mut b = ScorerBuilder::new();
+    for &(k1, k2, c) in entries {
+        b.insert(U31::new(k1).unwrap(), U31::new(k2).unwrap(), c);
+    }
+    let s = b.build();
+    let (bases, checks, costs) = s.verif_arrays();
+    #[cfg(not(target_feature = "avx2"))]
+    let answers = queries
+        .iter()
+        .map(|&(k1, k2)| s.verif_retrieve(U31::new(k1).unwrap(), U31::new(k2).unwrap()))
+        .collect();
+    #[cfg(target_feature = "avx2")]
+    let answers = queries.iter().map(|_| None).collect();
+    let to = |xs: &[u32]| -> Vec<U31> { xs.iter().map(|&x| U31::new(x).unwrap()).collect() };
+    let acc = s.accumulate_cost(&U31x8::to_simd_vec(&to(lanes1)), &U31x8::to_simd_vec(&to(lanes2)));
+    (bases, checks, costs, answers, acc)
+}
